@@ -293,8 +293,19 @@ func TestWorker(t *testing.T) {
 				binary.LittleEndian.PutUint32(b[:], x)
 				h.Write(b[:])
 			}
+			// the verdict as a set: oracles may list their findings in map order,
+			// which is not part of the simulated execution
+			classes := map[string]bool{}
 			for _, v := range res.Violations {
-				h.Write([]byte(v.Class))
+				classes[v.Class] = true
+			}
+			sorted := make([]string, 0, len(classes))
+			for c := range classes {
+				sorted = append(sorted, c)
+			}
+			sort.Strings(sorted)
+			for _, c := range sorted {
+				h.Write([]byte(c))
 			}
 			out.Hashes = append(out.Hashes, fmt.Sprintf("%d %x", idx, h.Sum(nil)[:8]))
 			if dir := os.Getenv("VERIF_DUMP_ALL"); dir != "" {
